@@ -82,4 +82,6 @@ def is_nonempty_str(txt: Optional[str]) -> bool:
 def hash_comp_cls(comp_cls: Type["Component"]) -> str:
     full_name = get_import_path(comp_cls)
     comp_cls_hash = md5(full_name.encode()).hexdigest()[0:6]
-    return comp_cls.__name__ + "_" + comp_cls_hash
+    # The class name is embedded in HTML comments and URLs, so keep only ASCII word characters
+    safe_name = re.sub(r"[^A-Za-z0-9_]", "_", comp_cls.__name__)
+    return safe_name + "_" + comp_cls_hash
